@@ -1,5 +1,8 @@
 import IQE.Props.C05
 open IQE.Props.C05
+#print axioms C05_op_bijection
+#print axioms C05_tables_are_translated
+#print axioms C05_toGen_ofGen
 #print axioms C05_eval_range_sound
 #print axioms C05_eval_range_f64_sound
 #print axioms C05_eval_range_str_sound
